@@ -136,10 +136,13 @@ def elem_units(ty):
     m = re.search(r'Option<(.*)>$', ty)
     inner = m.group(1) if m else ty
     first = inner
-    if inner.startswith('('):
-        comps = split_top(inner[1:-1])
+    hops = 0
+    while first.strip().startswith('(') and hops < 4:
+        # (index, (src element, dst element)) for enumerate() over zip(): the first reference component, however deep
+        comps = split_top(first.strip()[1:-1])
         cand = [x for x in comps if '&' in x]
         first = cand[0] if cand else comps[0]
+        hops += 1
     dims = [int(x) for x in re.findall(r';\s*(\d+)\]', first)]
     n = 1
     for d in dims:
@@ -486,6 +489,10 @@ def analyse(rep, f, c, rule, fn, counter_expected=True, hybrid=False):
         ty = b.locals[b.blocks[lp['bb']]['t']['dest']['l']]['ty']
         m_ = re.search(r'Option<\((.*)\)>$', ty)
         comps_ty = split_top(m_.group(1)) if m_ else []
+        enum_wrapped = len(comps_ty) == 2 and comps_ty[0].strip() == 'usize' and comps_ty[1].strip().startswith('(')
+        if enum_wrapped:
+            # enumerate() over zip(): the element is (index, (source element, destination element))
+            comps_ty = split_top(comps_ty[1].strip()[1:-1])
         dims = [int(x) for x in re.findall(r';\s*(\d+)\]', comps_ty[0])] if comps_ty else []
         for blks, end in enumerate_block_paths(b, h, stop=heads_all):
             if not (end[0] in ('back', 'stop') and end[1] == h):
@@ -497,6 +504,8 @@ def analyse(rep, f, c, rule, fn, counter_expected=True, hybrid=False):
             if not nxt:
                 continue
             pay = ('fld', ('as', ('call', nxt[0][1], nxt[0][2], nxt[0][3]), 'Some'), '0')
+            if enum_wrapped:
+                pay = ('fld', pay, '1')
             src_el, dst_el = ('fld', pay, '0'), ('fld', pay, '1')
             if len(dims) == 2:
                 # element is a group of m strides: each sub-stride must be handed to a stride function with its own twin, or the group as a whole
@@ -778,12 +787,93 @@ def account_enumerate(rep, f, c, rule, fn, b, K):
     def is_mul(t, pred, cst):
         return t[0] == 'bin' and t[1] == 'Mul' and ((pred(t[2]) and t[3][0] == 'c' and t[3][1] == cst) or (pred(t[3]) and t[2][0] == 'c' and t[2][1] == cst))
 
+    all_units = {lp_['parts'][0]: lp_['units'] for lp_ in K.loops if lp_['parts']}
+    first_w = first_elem_units(b, K)
+
+    def elem_units(part):
+        if part in all_units:
+            return all_units[part]
+        if part[0] == 'first' and part[2] == 1:
+            return elem_units(part[1])
+        if part[0] == 'chunks' and part[2] == 0 and any(s_.get('kind') == 'first' for s_ in K.splits):
+            return first_w
+        return None
+
+    def natural_start(part):
+        if part[0] in ('arg', 'prefix'):
+            return {}, 0
+        if part[0] == 'suffix':
+            return None
+        ps = natural_start(part[1])
+        if ps is None:
+            return None
+        terms_, k_ = dict(ps[0]), ps[1]
+        if part[0] == 'chunks' and part[2] == 1:
+            w_ = elem_units(('chunks', part[1], 0))
+            if w_ is None:
+                return None
+            terms_[('chunks', part[1], 0)] = terms_.get(('chunks', part[1], 0), 0) + w_
+        elif part[0] == 'first' and part[2] == 1:
+            w_ = elem_units(part[1])
+            if w_ is None:
+                return None
+            k_ += w_
+        return terms_, k_
+
     for h, lp in sorted(loops, key=lambda x: x[0]):
         L = lp['parts'][0]
         units = lp['units']
         is_idx = lambda e: e[0] == 'fld' and e[2] == '0' and e[1][0] == 'fld' and e[1][2] == '0' and e[1][1][0] == 'as' and e[1][1][2] == 'Some' and \
             e[1][1][1][0] == 'call' and len(e[1][1][1]) == 4 and e[1][1][1][3] == lp['bb']
         # start of the part
+        nat = natural_start(L)
+        if nat is not None and not (L[0] == 'chunks' and L[2] == 0 and L[1][0] in ('arg', 'prefix')) and \
+                not (L[0] == 'chunks' and L[2] == 1 and L[1][0] in ('arg', 'prefix') and [x for _, x in loops if x['parts'][0] == ('chunks', L[1], 0)]):
+            # a part of a nested partition (first / rest, strides of the rest ...): the report is compared with the natural start
+            # start(first) = start(P), start(rest) = start(P) + one element, start(P.strides) = start(P),
+            # start(P.tail) = start(P) + P.strides.len() * width, in linear form over the lengths of the parts
+            nret = 0
+            for blks, end in enumerate_block_paths(b, h, stop=heads):
+                if end[0] != 'return':
+                    continue
+                p = summarize(b, blks, end)
+                if not any(e[0] == 'cond' and isinstance(e[1], tuple) and e[1][0] == 'variant' and e[2] == 'Some' and e[3] == lp['sw'] for e in p.events):
+                    continue
+                rv = p.env.get(0)
+                leaf = pos_component(rv, b) if rv is not None else None
+                if leaf is None:
+                    continue
+                terms, k = expand_terms(leaf)
+                idx_t = [t for t in terms if (is_idx(t) if units == 1 else is_mul(t, is_idx, units))]
+                pay_t = [t for t in terms if is_payload_of_elem_call(t, lp)]
+                rest_t = [t for t in terms if t not in idx_t and t not in pay_t]
+                got = {}
+                bad_t = False
+                for t in rest_t:
+                    m_ = None
+                    if t[0] == 'len' and part_of(t[1]) is not None:
+                        m_ = (part_of(t[1]), 1)
+                    elif t[0] == 'bin' and t[1] == 'Mul':
+                        for x_, y_ in ((t[2], t[3]), (t[3], t[2])):
+                            if x_[0] == 'len' and part_of(x_[1]) is not None and y_[0] == 'c':
+                                m_ = (part_of(x_[1]), y_[1])
+                    if m_ is None:
+                        bad_t = True
+                    else:
+                        got[m_[0]] = got.get(m_[0], 0) + m_[1]
+                ok = not bad_t and len(idx_t) == 1 and len(pay_t) == (1 if units > 1 else 0) and k == nat[1] and got == nat[0]
+                n += 1
+                nret += 1
+                rep.ob(rule + '.K3.report', '%s:loop(%s):report' % (fn, part_str(L, b)), ok,
+                       'an offending unit in %s must be reported at start(part) + (enumerate index of the element)%s%s with start(part) = %s; found %s' % (
+                           part_str(L, b), ' * %d' % units if units > 1 else '', ' + the position the stride function returned' if units > 1 else '',
+                           ' + '.join(['%d' % nat[1]] + ['%s.len() * %d' % (part_str(pp_, b), cc_) for pp_, cc_ in nat[0].items()]), expr_str(leaf, b)[:160]),
+                       sp_str(b.blocks[blks[-1]]['tsp']), {'mode': 'enumerate', 'element_units': units}, c)
+            if nret:
+                n += 1
+                rep.ob(rule + '.K3.step', '%s:loop(%s):enumerate' % (fn, part_str(L, b)), True, '', sp_str(b.blocks[lp['bb']]['tsp']),
+                       {'mode': 'enumerate', 'element_units': units}, c)
+            continue
         if L[0] == 'chunks' and L[2] == 0 and L[1][0] in ('arg', 'prefix'):
             start_ok = lambda t: False
             need_start = 0
